@@ -147,6 +147,7 @@ const (
 )
 
 type armResult struct {
+	regs     map[ssa.Value]value // pre-existing registers overwritten inside the arm (loop phis etc.)
 	returned bool
 	result   value
 	prev     *ssa.BasicBlock
@@ -246,8 +247,11 @@ func (i *interpreter) tryMerge(fr *frame, instr *ssa.If, c *sym.Term) (continuat
 			i.sideConds = nil
 			restore()
 			i.Stats.MergeAborts++
+			if i.MergeFails != nil {
+				i.MergeFails[pa.msg+i.where()]++
+			}
 			if i.Trace {
-				println("merge abort:", pa.msg, i.where())
+				_ = 0
 			}
 			if replay {
 				panic("merge replay failed: " + pa.msg)
@@ -306,6 +310,16 @@ func (i *interpreter) tryMerge(fr *frame, instr *ssa.If, c *sym.Term) (continuat
 			ar.writes[e.addr] = *e.addr
 		}
 		i.undoTo(mark)
+		// registers that existed at the If and were overwritten in the arm (blocks executed
+		// again, e.g. loop headers) may be read after the join without a phi: merge them too
+		for k, old := range savedEnv {
+			if nv, ok := fr.env[k]; ok && !identicalVal(nv, old) {
+				if ar.regs == nil {
+					ar.regs = map[ssa.Value]value{}
+				}
+				ar.regs[k] = nv
+			}
+		}
 		resetEnv()
 		i.specGuard = i.specGuard[:len(i.specGuard)-1]
 		fr.stopAt, fr.stopped = savedStopAt, savedStopped
@@ -352,6 +366,39 @@ func (i *interpreter) tryMerge(fr *frame, instr *ssa.If, c *sym.Term) (continuat
 			commits = append(commits, cw{addr, m})
 		}
 	}
+	type rw struct {
+		k ssa.Value
+		v value
+	}
+	var regCommits []rw
+	if !aT.returned {
+		for _, regs := range []map[ssa.Value]value{aT.regs, aF.regs} {
+			for k := range regs {
+				done := false
+				for _, rc := range regCommits {
+					if rc.k == k {
+						done = true
+					}
+				}
+				if done {
+					continue
+				}
+				vT, okT := aT.regs[k]
+				if !okT {
+					vT = savedEnv[k]
+				}
+				vF, okF := aF.regs[k]
+				if !okF {
+					vF = savedEnv[k]
+				}
+				m, good := i.iteVal(c, vT, vF)
+				if !good {
+					i.mergeAbort("unmergeable register")
+				}
+				regCommits = append(regCommits, rw{k, m})
+			}
+		}
+	}
 	var phiVals []value
 	var result value
 	if aT.returned {
@@ -388,6 +435,9 @@ func (i *interpreter) tryMerge(fr *frame, instr *ssa.If, c *sym.Term) (continuat
 		fr.block = nil
 		resK = kReturn
 	} else {
+		for _, rc := range regCommits {
+			fr.env[rc.k] = rc.v
+		}
 		k := 0
 		for _, in := range join.Instrs {
 			phi, isPhi := in.(*ssa.Phi)
@@ -432,4 +482,79 @@ func (i *interpreter) undoTo(mark int) {
 func (i *interpreter) sideCond(bad *sym.Term) {
 	g := append(append([]*sym.Term{}, i.specGuard...), bad)
 	i.sideConds = append(i.sideConds, i.ctx.And(g...))
+}
+
+// identicalVal reports whether two register values are the same object/value (no deep semantics:
+// a conservative "unchanged" test).
+func identicalVal(a, b value) (same bool) {
+	defer func() {
+		if recover() != nil {
+			same = false
+		}
+	}()
+	switch x := a.(type) {
+	case []value:
+		y, ok := b.([]value)
+		if !ok || len(x) != len(y) || cap(x) != cap(y) {
+			return false
+		}
+		if cap(x) == 0 {
+			return (x == nil) == (y == nil)
+		}
+		return &x[:1][0] == &y[:1][0]
+	case structure:
+		y, ok := b.(structure)
+		if !ok || len(x) != len(y) {
+			return false
+		}
+		for k := range x {
+			if !identicalVal(x[k], y[k]) {
+				return false
+			}
+		}
+		return true
+	case array:
+		y, ok := b.(array)
+		if !ok || len(x) != len(y) {
+			return false
+		}
+		for k := range x {
+			if !identicalVal(x[k], y[k]) {
+				return false
+			}
+		}
+		return true
+	case tuple:
+		y, ok := b.(tuple)
+		if !ok || len(x) != len(y) {
+			return false
+		}
+		for k := range x {
+			if !identicalVal(x[k], y[k]) {
+				return false
+			}
+		}
+		return true
+	case sstr:
+		y, ok := b.(sstr)
+		if !ok || len(x) != len(y) {
+			return false
+		}
+		for k := range x {
+			if !identicalVal(x[k], y[k]) {
+				return false
+			}
+		}
+		return true
+	case iface:
+		y, ok := b.(iface)
+		return ok && sameType(x.t, y.t) && identicalVal(x.v, y.v)
+	case *FV:
+		y, ok := b.(*FV)
+		return ok && (x == y || (x.Nan == y.Nan && x.Inf == y.Inf && x.V == y.V))
+	case float64:
+		y, ok := b.(float64)
+		return ok && (x == y || (x != x && y != y))
+	}
+	return a == b
 }
